@@ -206,6 +206,13 @@ class Ctx:
         for k, tok2 in self.prog.consts.items():
             if bs == k or bs.endswith('::' + k) or k.endswith('::' + bs):
                 return self.const(tok2, fname)
+        # an associated / function-local constant is defined under `<impl at file:line>` but referenced through the
+        # type's name (conn::<impl at ..>::turn::{closure#0}::BRANCHES  vs  conn::LdapConnAsync::turn::{closure#0}::BRANCHES)
+        for k, tok2 in self.prog.consts.items():
+            if '<impl at ' in k:
+                pat = '^' + re.sub(r'<impl\\ at\\ [^>]*>', r'[^:]+', re.escape(k)) + '$'
+                if re.match(pat, bs):
+                    return self.const(tok2, fname)
         # named constant with a MIR body (const X: T = {...})
         for k, fn in self.prog.promoted.items():
             if 'promoted[' not in k and (k == bs or bs.endswith('::' + k) or k.endswith('::' + last_seg(bs)) and last_seg(k) == last_seg(bs)):
@@ -512,7 +519,15 @@ class Ctx:
         if k == 'repeat':
             v = self.operand(fn, fr, rv[1]); return ArrV([copy_val(v) for _ in range(rv[2])])
         if k == 'closure':
-            return ClosureV(rv[1], [self.rvalue(fn, fr, c) for c in rv[2]])
+            cv = ClosureV(rv[1], [self.rvalue(fn, fr, c) for c in rv[2]])
+            msp = re.search(r'closure@([^}]*)\}', rv[1])
+            cands = self.prog.closures_all.get(msp.group(1), []) if msp else []
+            if len(cands) > 1:
+                # closures from a macro expansion share their span: the body is the one defined inside the current function
+                mine = [f for f in cands if f.name.startswith(fn.name + '::{closure#')]
+                if len(mine) == 1: cv.body_fn = mine[0]
+                elif len(mine) != 1: raise Unsupported('ambiguous closure body for span ' + msp.group(1)[:80])
+            return cv
         if k == 'coroutine':
             body = self.prog.closures.get(rv[1]) or self.prog.closures.get(rv[1].split(' (#')[0])
             if body is None:
@@ -761,7 +776,7 @@ class Ctx:
 
     def run_closure(self, clo, args):
         m = re.search(r'closure@([^}]*)\}', clo.name)
-        fn = self.prog.closures.get(m.group(1)) if m else None
+        fn = getattr(clo, 'body_fn', None) or (self.prog.closures.get(m.group(1)) if m else None)
         if fn is None:
             raise Unsupported('closure body ' + clo.name[:100])
         # closures called through Fn* traits take (self, (args,)) untupled in MIR: fn(_1: closure, _2: a, ...)
